@@ -110,11 +110,33 @@ def _expected_raise(reqs, dloc, kind, n, sizes) -> bool:
 
 def _one_snapshot(ctx: Ctx, case: Dict[str, Any], suite: str):
     import gen
+    import shutil
+    import sim
+    import torch
+    from common import OUT_DIR
+    from torchsnapshot import Snapshot
+
+    world = sim.World(1)
+    fs_dir = None
+    if case.get("real_fs"):
+        # the REAL FSStoragePlugin in a private directory (keys of this suite are plain): its short-read behaviour on
+        # truncated files is what the consumers' length checks rely on
+        fs_dir = os.path.join(OUT_DIR, f"c04_fs_{os.getpid()}")
+        shutil.rmtree(fs_dir, ignore_errors=True)
+        world.storage = sim.FsStore(fs_dir)
+    try:
+        _one_snapshot_in(ctx, case, suite, world)
+    finally:
+        if fs_dir:
+            shutil.rmtree(fs_dir, ignore_errors=True)
+
+
+def _one_snapshot_in(ctx: Ctx, case: Dict[str, Any], suite: str, world):
+    import gen
     import sim
     import torch
     from torchsnapshot import Snapshot
 
-    world = sim.World(1)
     tree = gen.build_tree(case["state"])
     saved = gen.deep_clone(tree)
     with sim.knobs(**case["knobs"]):
@@ -148,6 +170,11 @@ def _one_snapshot(ctx: Ctx, case: Dict[str, Any], suite: str):
         try:
             got = fn()
         except Exception as e:  # noqa
+            # a failed restore abandons its other read coroutines; finalise them now, at a safe point (with the real FS
+            # plugin their aiofiles __aexit__ would otherwise run from a GC pass inside ThreadPoolExecutor.submit and deadlock)
+            if isinstance(world.storage, sim.FsStore):
+                import gc
+                gc.collect()
             return "raise", type(e).__name__
         d = gen.deep_eq(expect_value, got)
         return ("ok-correct", None) if d is None else ("ok-wrong", d)
@@ -174,7 +201,10 @@ def _one_snapshot(ctx: Ctx, case: Dict[str, Any], suite: str):
                 ro_paths = touched[:3] + (others[:1] if others else [])
                 for k in ro_paths:
                     calls.append(("read_object", ctx.rng.random() < 0.5, k, None))
-                    calls.append(("read_object", ctx.rng.random() < 0.5, k, ctx.rng.choice([1, 3, 8, 17])))
+                    if max(sizes.values()) <= 4096:      # tiny budgets on MB-sized objects mean millions of tiles
+                        calls.append(("read_object", ctx.rng.random() < 0.5, k, ctx.rng.choice([1, 3, 8, 17])))
+                    else:
+                        calls.append(("read_object", ctx.rng.random() < 0.5, k, 400000))
                 for (mode, nobatch, key, budget) in calls:
                     if ctx.time_left() < 5:
                         return
@@ -199,7 +229,8 @@ def _one_snapshot(ctx: Ctx, case: Dict[str, Any], suite: str):
                     with sim.knobs(nobatch=nobatch, budget=case["knobs"].get("budget")):
                         outcome, detail = classify(lambda: world.run1(call), expect_value)
                     exp_raise = _expected_raise(reqs, loc, kind, n, sizes)
-                    inp = {"state": case["state"], "knobs": case["knobs"], "object": loc, "size": sizes[loc], "damage": kind, "n": n,
+                    inp = {"state": case["state"], "knobs": case["knobs"], "real_fs": bool(case.get("real_fs")), "object": loc,
+                           "size": sizes[loc], "damage": kind, "n": n,
                            "call": mode, "read_batching": not nobatch, "path": key, "budget": budget}
                     if outcome == "ok-wrong":
                         ctx.fail("silent-wrong-data", "call returned normally with contents different from the saved ones", inp, detail, suite=suite)
@@ -271,7 +302,7 @@ def _gen_case(rng) -> Dict[str, Any]:
         items.append([gen.key_desc(k), leaf])
     kn = {"chunk": rng.choice([None, 1, 8, 16, 64]), "slab": rng.choice([None, None, 1, 16, 64]),
           "nobatch": rng.choice([False, False, True]), "budget": rng.choice([10 ** 9, 50, 1])}
-    return {"state": {"t": "dict", "items": items}, "knobs": kn}
+    return {"state": {"t": "dict", "items": items}, "knobs": kn, "real_fs": rng.random() < 0.25}
 
 
 CORPUS = [
@@ -280,13 +311,18 @@ CORPUS = [
         [{"k": "str", "v": [97]}, {"t": "tensor", "dtype": "float32", "shape": [2], "data": [1, 2, 3, 4, 5, 6, 7, 8], "layout": "contig"}],
         [{"k": "str", "v": [98]}, {"t": "tensor", "dtype": "float32", "shape": [2], "data": [9, 10, 11, 12, 13, 14, 15, 16], "layout": "contig"}]]},
      "knobs": {"nobatch": False, "budget": 10 ** 9}},
+    # real FS plugin, a slab member larger than 1 MiB: ranged reads of that size must still come back short on a truncated file
+    {"state": {"t": "dict", "items": [
+        [{"k": "str", "v": [97]}, {"t": "tensor_big", "dtype": "float32", "n": 300000, "seed": 3}],
+        [{"k": "str", "v": [98]}, {"t": "tensor", "dtype": "uint8", "shape": [3], "data": [1, 2, 3], "layout": "contig"}]]},
+     "knobs": {"nobatch": False, "budget": 10 ** 9}, "real_fs": True},
 ]
 
 
 def run(ctx: Ctx):
     for c in CORPUS:
         _one_snapshot(ctx, c, "corpus")
-    for i in range(ctx.n(60, 800)):
+    for i in range(ctx.n(36, 800)):
         if ctx.time_left() < 15:
             ctx.notes.append(f"stopped early at snapshot {i}")
             break
@@ -295,7 +331,7 @@ def run(ctx: Ctx):
 
 def replay(ctx: Ctx, rec):
     inp = rec["input"]
-    _one_snapshot(ctx, {"state": inp["state"], "knobs": inp["knobs"]}, "replay")
+    _one_snapshot(ctx, {"state": inp["state"], "knobs": inp["knobs"], "real_fs": inp.get("real_fs")}, "replay")
     for f in ctx.failures[:10]:
         print("FAIL", f["sig"], f["what"], {k: v for k, v in f["input"].items() if k != "state"}, f["observed"])
     if not ctx.failures:
